@@ -183,11 +183,14 @@ class GaussianMerge(Compiler):
                     # Fix order of operations
                     unified_operations = self.organize_merge_ops([op] + merged_gaussian_ops)
                     gaussian_transform = GaussianUnitary().compile(unified_operations, registers)
-                    self.new_DAG.add_node(gaussian_transform[0])
+                    # the merged operations may cancel each other, then nothing replaces them
+                    self.new_DAG.add_nodes_from(gaussian_transform[:1])
 
                     # Logic to add displacement gates. Returns a dictionary,
                     # where the value is a displacement gate added and its key is the qumode its operating upon.
-                    displacement_mapping = self.add_displacement_gates(gaussian_transform)
+                    displacement_mapping = (
+                        self.add_displacement_gates(gaussian_transform) if gaussian_transform else {}
+                    )
 
                     # Every operation that preceded (followed) one of the merged operations has to
                     # precede (follow) the operations that replace them.
@@ -209,8 +212,8 @@ class GaussianMerge(Compiler):
     def add_edges_around_merged_ops(self, gaussian_transform, merged_ops, displacement_mapping):
         """
         Updates the DAG by connecting the operations that replace ``merged_ops`` (a Gaussian transform
-        followed by displacement gates) to all predecessors and successors
-        of the merged operations.
+        followed by displacement gates, or nothing if the merged operations cancel each other) to all
+        predecessors and successors of the merged operations.
         """
         merged = set(merged_ops)
         predecessors = []
@@ -218,6 +221,11 @@ class GaussianMerge(Compiler):
         for merged_op in merged_ops:
             predecessors += [pre for pre in self.DAG.predecessors(merged_op) if pre not in merged]
             successors += [post for post in self.DAG.successors(merged_op) if post not in merged]
+
+        if not gaussian_transform:
+            # the merged operations cancel each other: keep the order of their surroundings
+            self.new_DAG.add_edges_from((pre, post) for pre in predecessors for post in successors)
+            return
 
         self.new_DAG.add_edges_from((pre, gaussian_transform[0]) for pre in predecessors)
         for post in successors:
